@@ -31,9 +31,13 @@ TOOWNED = (r'"((?:[^"\\]|\\.)*)"\s*\.to_owned\(\)', r'str_to_string("\1")', 'eve
 OPTSLOAD = (r'self\.opts\.load\(\)\.deref\(\)\.deref\(\)', 'self.opts.load()', 'every: Guard<Arc<T>> double deref is the loaded value')
 
 # what the pseudo file system promises (proved on the real text by unit pseudopersist; the clause strings are shared)
-PSEUDO_SAVE_ENS = ['r is Ok ==> r->Ok_0@ == ptree_enc(self.tree()) // [C19.pseudo.save.image] the image carries next_inode and (ino, parent, name) of every pseudo inode']
-PSEUDO_RESTORE_ENS = ['r is Ok ==> ptree_dec(old(buf)@) is Some && (old(self).tree().is_fresh() ==> final(self).tree() == ptree_dec(old(buf)@)->Some_0) // [C19.pseudo.restore.tree] a fresh pseudo fs becomes the saved tree',
-                      'r is Err ==> true']
+# {T} = the abstract tree of `self` now, {T0} / {T1} = before / after (unit pseudopersist passes the ghost heap of the children cells as well)
+PSEUDO_SAVE_ENS = ['r is Ok ==> ptree_encodes(r->Ok_0@, {T}) // [C19.pseudo.save.image] the image carries next_inode and (ino, parent, name) of every pseudo inode, each once']
+PSEUDO_RESTORE_ENS = ['r is Ok ==> ptree_dec(old(buf)@) is Some && ({T0}.is_fresh() && ptree_img_wf(old(buf)@) ==> {T1} == ptree_dec(old(buf)@)->Some_0) // [C19.pseudo.restore.tree] a fresh pseudo fs becomes the tree the image lists']
+
+
+def pseudo_clauses(cl, T, T0, T1):
+    return [c.replace('{T0}', T0).replace('{T1}', T1).replace('{T}', T) for c in cl]
 
 
 def version_attr(root):
@@ -157,8 +161,9 @@ pub struct PTree {
     pub children: Map<u64, Seq<u64>>,                 // directory listing order (readdir offsets are positions in it)
 }
 impl PTree { pub open spec fn is_fresh(self) -> bool { self.nodes =~= Map::empty() && (forall|k: u64| #[trigger] self.children.contains_key(k) ==> self.children[k].len() == 0) } }
-pub uninterp spec fn ptree_enc(t: PTree) -> Seq<u8>;
-pub uninterp spec fn ptree_dec(b: Seq<u8>) -> Option<PTree>;
+pub uninterp spec fn ptree_encodes(b: Seq<u8>, t: PTree) -> bool;     // `b` is an image of `t` (the order in which the inodes are listed is not fixed)
+pub uninterp spec fn ptree_dec(b: Seq<u8>) -> Option<PTree>;         // the tree restore builds from an image
+pub uninterp spec fn ptree_img_wf(b: Seq<u8>) -> bool;               // the image lists every inode once and not the root
 pub uninterp spec fn pt_mount_ino(t: PTree, path: Seq<char>) -> u64;
 pub uninterp spec fn pt_walk_ino(t: PTree, path: Seq<char>) -> Option<u64>;
 impl PseudoFs {
@@ -202,11 +207,12 @@ proof fn lemma_conv_inverse(o: VfsOptions, m: Option<(u32, u32, u32)>, s: VfsOpt
 pub open spec fn none_maps() -> Seq<Option<(u32, u32, u32)>> { Seq::new(256, |i: int| None::<(u32, u32, u32)>) }
 impl Vfs {
     // what save_to_bytes writes: every cell of the VFS that is not a backend
-    spec fn saved_img(&self, v: u16) -> VfsStateImg {
-        VfsStateImg { options: opts_state(self.opts.cur()), root: ptree_enc(self.root.tree()), next_super: self.next_super.cur(),
+    spec fn saved_img(&self, v: u16, rb: Seq<u8>) -> VfsStateImg {
+        VfsStateImg { options: opts_state(self.opts.cur()), root: rb, next_super: self.next_super.cur(),
                       maps: if v >= %(start)d { Some(self.maps().map_values(|m: Option<(u32, u32, u32)>| map_state(m))) } else { None } }
     }
-    spec fn save_post(&self, bytes: Seq<u8>) -> bool { bytes == snap_enc::<VfsState>(%(start)du16, self.saved_img(%(start)du16)) }
+    // `rb` = the image of the pseudo tree embedded in the state
+    spec fn save_post(&self, bytes: Seq<u8>, rb: Seq<u8>) -> bool { ptree_encodes(rb, self.root.tree()) && bytes == snap_enc::<VfsState>(%(start)du16, self.saved_img(%(start)du16, rb)) }
     // what restore_from_bytes re-establishes from an image (root version, content); `o` is the VFS before
     spec fn restore_post(o: Vfs, n: Vfs, root: u16, i: VfsStateImg) -> bool {
         &&& n.opts.cur() == state_opts(i.options)
@@ -214,15 +220,15 @@ impl Vfs {
         &&& n.next_super.cur() == i.next_super
         &&& n.maps() =~= (match i.maps { Some(m) => m.map_values(|s: Option<IdMappingState>| state_map(s)), None => none_maps() })
         &&& n.id_mapping == global_of(state_opts(i.options))
-        &&& (o.root.tree().is_fresh() ==> Some(n.root.tree()) == ptree_dec(i.root))
+        &&& ptree_dec(i.root) is Some && (o.root.tree().is_fresh() && ptree_img_wf(i.root) ==> Some(n.root.tree()) == ptree_dec(i.root))
         &&& n.superblocks == o.superblocks && n.mountpoints == o.mountpoints
     }
     // ---- round trip: restore(save(a)) into a VFS `o` gives `n` with the same options, cursor, per-mount and global mappings, pseudo tree
-    proof fn lemma_roundtrip(a: Vfs, bytes: Seq<u8>, o: Vfs, n: Vfs)
-        requires a.save_post(bytes), a.maps().len() == 256,
+    proof fn lemma_roundtrip(a: Vfs, bytes: Seq<u8>, rb: Seq<u8>, o: Vfs, n: Vfs)
+        requires a.save_post(bytes, rb), a.maps().len() == 256,
                  snap_dec::<VfsState>(bytes) is Some && Vfs::restore_post(o, n, snap_dec::<VfsState>(bytes)->Some_0.0, snap_dec::<VfsState>(bytes)->Some_0.1),
                  a.id_mapping == global_of(a.opts.cur()),                       // established by Vfs::new, never changed
-                 ptree_dec(ptree_enc(a.root.tree())) == Some(a.root.tree()),    // the pseudo fs inverse pair (unit pseudopersist)
+                 ptree_dec(rb) == Some(a.root.tree()) && ptree_img_wf(rb),      // the pseudo fs inverse pair: lemma_pseudo_roundtrip of unit pseudopersist, from ptree_encodes(rb, tree)
                  o.root.tree().is_fresh(),
         ensures n.opts.cur() == a.opts.cur(),                                   // [C19.roundtrip.options]
                 n.next_super.cur() == a.next_super.cur(),                       // [C19.roundtrip.next_super]
@@ -233,7 +239,7 @@ impl Vfs {
                 a.initialized.cur() == (a.opts.cur().in_opts.bits != 0) ==> n.initialized.cur() == a.initialized.cur(),   // [C19.roundtrip.initialized]
     {
         broadcast use axiom_snap_inverse;
-        assert(snap_dec::<VfsState>(bytes) == Some((%(start)du16, a.saved_img(%(start)du16))));
+        assert(snap_dec::<VfsState>(bytes) == Some((%(start)du16, a.saved_img(%(start)du16, rb))));
         lemma_conv_inverse(a.opts.cur(), None, opts_state(a.opts.cur()), None);
         let sm = a.maps().map_values(|m: Option<(u32, u32, u32)>| map_state(m));
         assert forall|k: int| 0 <= k < 256 implies #[trigger] n.maps()[k] == a.maps()[k] by {
@@ -360,17 +366,19 @@ def unit(root='/repo'):
         if isinstance(it, Group) and it.header.startswith('impl Vfs {') and any(isinstance(f, Fn) and f.name == 'insert_mount_locked' for f in it.items):
             keep = []
             for f in it.items:
-                if isinstance(f, Fn) and f.name == 'insert_mount_locked':
+                if isinstance(f, Fn) and f.name in ('insert_mount_locked', 'allocate_fs_idx'):
                     g = copy.copy(f)
                     g.external_body, g.canary, g.splices, g.body_resub = True, False, [], []     # contract proved in unit vfsmount, used here
+                    g.requires = [re.sub(r'\[C\d\d\.', '[C19.callee.', c) for c in g.requires]  # a precondition violated by a caller in THIS unit is a C19 finding
+                    g.ensures = [re.sub(r'\[C\d\d\.', '[C19.callee.', c) for c in g.ensures]
                     keep.append(g)
             items.append(Group(it.header, keep))
             continue
         items.append(it)
     P = ['C19']
     d = dict(start=start, default_fn=default_fn, attr=attr,
-             pseudo_save='\n'.join('            %s,' % c.split(' // ')[0] for c in PSEUDO_SAVE_ENS),
-             pseudo_restore='\n'.join('            %s,' % c.split(' // ')[0] for c in PSEUDO_RESTORE_ENS))
+             pseudo_save='\n'.join('            %s,' % c.split(' // ')[0] for c in pseudo_clauses(PSEUDO_SAVE_ENS, 'self.tree()', '', '')),
+             pseudo_restore='\n'.join('            %s,' % c.split(' // ')[0] for c in pseudo_clauses(PSEUDO_RESTORE_ENS, '', 'old(self).tree()', 'final(self).tree()')))
     items += [
         Copy(MOD, r'const MAX_VFS_INDEX\b'),
         Copy(MOD, r'struct IdMappingState\b', prefix='#[derive(Clone, Copy)]'),
@@ -410,16 +418,20 @@ def unit(root='/repo'):
     save = Fn(MOD, PERSIST_VFS, 'save_to_bytes', props=P, canary=True, ret_name='res', body_resub=[OPTSLOAD],
               gtag_props={'snapver': ['C19']},
               requires=['self.maps().len() == 256'],
-              ensures=['res is Ok ==> self.save_post(res->Ok_0@) // [C19.save.image] the image is the latest root version and carries options, pseudo tree, allocation cursor and every per-mount mapping'],
+              ensures=['res is Ok ==> exists|rb: Seq<u8>| #[trigger] self.save_post(res->Ok_0@, rb) // [C19.save.image] the image is the latest root version and carries options, pseudo tree, allocation cursor and every per-mount mapping'],
               splices=[('while mount_id_mappings_i < mappings.len() {', 'replace', INV_LOOP_SAVE),
                        ('|tp_1|', 'closure', '|tp_1: (u32, u32, u32)| -> (q: IdMappingState)\n                ensures q == (IdMappingState { internal_id: tp_1.0, external_id: tp_1.1, range: tp_1.2 }) // [C19.save.mapping_fields]\n'),
                        ('let vm = Vfs::get_version_map();', 'before', '''proof {
                 assert(vfs_state.options == opts_state(self.opts.cur()));                                  // [C19.save.options]
                 assert(vfs_state.next_super == self.next_super.cur());                                     // [C19.save.next_super]
-                assert(vfs_state.root@ == ptree_enc(self.root.tree()));                                    // [C19.save.pseudo_tree]
+                assert(ptree_encodes(vfs_state.root@, self.root.tree()));                                  // [C19.save.pseudo_tree]
                 assert(vfs_state.mount_id_mappings@ =~= self.maps().map_values(|m: Option<(u32, u32, u32)>| map_state(m)));   // [C19.save.mount_mappings] every slot, also the empty ones
             }'''),
-                       ('Ok(buf)', 'before', 'proof { assert(buf@ =~= snap_enc::<VfsState>(%(start)du16, vfs_state.img(%(start)du16))); assert(vfs_state.img(%(start)du16) == self.saved_img(%(start)du16)); }' % d)])
+                       ('Ok(buf)', 'before', '''proof {
+                assert(buf@ =~= snap_enc::<VfsState>(%(start)du16, vfs_state.img(%(start)du16))); // [C19.save.image] written at the latest root version, with the latest layout of VfsState
+                assert(vfs_state.img(%(start)du16) == self.saved_img(%(start)du16, vfs_state.root@)); // [C19.save.image]
+                assert(self.save_post(buf@, vfs_state.root@)); // [C19.save.image]
+            }''' % d)])
     save.rules = ('R33',)
     restore = Fn(MOD, PERSIST_VFS, 'restore_from_bytes', props=P, canary=True, ret_name='res', sig_subst=R25,
                  gtag_props={'snapver': ['C19']},
@@ -432,13 +444,13 @@ def unit(root='/repo'):
                 let d = snap_dec::<VfsState>(old(buf)@); let i = d->Some_0.1;
                 assert(old(buf)@.take(old(buf)@.len() as int) =~= old(buf)@);
                 if (i.maps is Some) == (d->Some_0.0 >= %(start)d) {
-                    assert forall|k: int| 0 <= k < self.maps().len() implies #[trigger] self.maps()[k] == state_map(state.mount_id_mappings@[k]) by { }
+                    assert forall|k: int| 0 <= k < self.maps().len() implies #[trigger] self.maps()[k] == state_map(state.mount_id_mappings@[k]) by { } // [C19.restore.mount_mappings]
                     assert(self.opts.cur() == state_opts(i.options));                                     // [C19.restore.options]
                     assert(self.initialized.cur() == (i.options.in_opts != 0));                            // [C19.restore.initialized]
                     assert(self.next_super.cur() == i.next_super);                                         // [C19.restore.next_super]
                     assert(self.maps() =~= (match i.maps { Some(m) => m.map_values(|s: Option<IdMappingState>| state_map(s)), None => none_maps() }));   // [C19.restore.mount_mappings][C19.previous_version.mappings_default]
                     assert(self.id_mapping == global_of(state_opts(i.options)));                           // [C19.restore.global_mapping] the mapping in force for mounts without their own is the saved one
-                    assert(old(self).root.tree().is_fresh() ==> Some(self.root.tree()) == ptree_dec(i.root));   // [C19.restore.pseudo_tree]
+                    assert(ptree_dec(i.root) is Some && (old(self).root.tree().is_fresh() && ptree_img_wf(i.root) ==> Some(self.root.tree()) == ptree_dec(i.root)));   // [C19.restore.pseudo_tree]
                 }
             }''' % d)])
     restore.rules = ('R33',)
